@@ -197,3 +197,145 @@ def is_assign(nd):
 
 def is_compound_assign(nd):
     return nd["k"] == "bin" and nd["o"].endswith("=") and nd["o"] not in ("==", "!=", "<=", ">=", "=")
+
+
+def dominators(fn):
+    """block id -> set of dominating block ids (iterative; CFGs are small)"""
+    order = fn.rpo()
+    allb = set(order)
+    dom = {b: set(allb) for b in order}
+    dom[fn.entry] = {fn.entry}
+    changed = True
+    while changed:
+        changed = False
+        for b in order:
+            if b == fn.entry:
+                continue
+            preds = [p for p in fn.blocks[b].preds if p in allb]
+            if not preds:
+                continue
+            new = set.intersection(*(dom[p] for p in preds)) | {b}
+            if new != dom[b]:
+                dom[b] = new
+                changed = True
+    return dom
+
+
+def elem_positions(fn):
+    """node id -> (block id, index) for CFG elements"""
+    pos = {}
+    for b in fn.blocks.values():
+        for i, e in enumerate(b.elems):
+            pos.setdefault(e, (b.id, i))
+    return pos
+
+
+def enclosing_elem(fn, n, pos):
+    """the CFG position at which node n is evaluated"""
+    while n is not None and n not in pos:
+        n = fn.parent(n)
+    return pos.get(n) if n is not None else None
+
+
+def dominates(dom, pos_a, pos_b):
+    """position a = (block, idx) is executed before position b on every path"""
+    if pos_a is None or pos_b is None:
+        return False
+    if pos_a[0] == pos_b[0]:
+        return pos_a[1] < pos_b[1]
+    return pos_a[0] in dom.get(pos_b[0], ())
+
+
+def local_defs(fn, vid):
+    """all definitions of local `vid`: list of (node, rhs or None)"""
+    out = []
+    for i, nd in enumerate(fn.nodes):
+        if nd["k"] == "decl" and nd.get("d") == vid:
+            if nd.get("c"):
+                out.append((i, nd["c"][0]))
+        elif nd["k"] == "bin" and nd["o"].endswith("=") and nd["o"] not in ("==", "!=", "<=", ">="):
+            lhs = fn.strip(nd["c"][0])
+            ln = fn.nodes[lhs]
+            if ln["k"] == "ref" and ln.get("d") == vid:
+                out.append((i, nd["c"][1] if nd["o"] == "=" else None))
+        elif nd["k"] == "un" and nd["o"] in ("pre++", "pre--", "post++", "post--", "&"):
+            x = fn.strip(nd["c"][0])
+            if fn.nodes[x]["k"] == "ref" and fn.nodes[x].get("d") == vid:
+                out.append((i, None))
+    return out
+
+
+def linform(fn, n, depth=0, subst=True):
+    """linear form of an integer expression: (const, {term text: coeff}) or None.
+    Locals with a single definition are substituted by their defining expression."""
+    if n is None or n < 0 or depth > 12:
+        return None
+    n = fn.strip(n)
+    nd = fn.nodes[n]
+    k = nd["k"]
+    if "v" in nd and k in ("int", "const", "ref"):
+        return (nd["v"], {})
+    if k == "bin":
+        o = nd["o"]
+        a = linform(fn, nd["c"][0], depth + 1, subst)
+        b = linform(fn, nd["c"][1], depth + 1, subst)
+        if a is None or b is None:
+            return (0, {fn.txt(n): 1})
+        if o in ("+", "-"):
+            s = 1 if o == "+" else -1
+            terms = dict(a[1])
+            for t, c in b[1].items():
+                terms[t] = terms.get(t, 0) + s * c
+            return (a[0] + s * b[0], {t: c for t, c in terms.items() if c})
+        if o == "*":
+            if not a[1]:
+                return (a[0] * b[0], {t: c * a[0] for t, c in b[1].items() if c * a[0]})
+            if not b[1]:
+                return (a[0] * b[0], {t: c * b[0] for t, c in a[1].items() if c * b[0]})
+        return (0, {fn.txt(n): 1})
+    if k == "ref" and "d" in nd and subst:
+        defs = local_defs(fn, nd["d"])
+        if len(defs) == 1 and defs[0][1] is not None and nd["d"] not in fn.params:
+            r = linform(fn, defs[0][1], depth + 1, subst)
+            if r is not None:
+                return r
+    return (0, {fn.txt(n): 1})
+
+
+def lin_sub(a, b, scale=1):
+    terms = dict(a[1])
+    for t, c in b[1].items():
+        terms[t] = terms.get(t, 0) - scale * c
+    return (a[0] - scale * b[0], {t: c for t, c in terms.items() if c})
+
+
+def block_reach(fn, src):
+    """blocks reachable from block src (excluding src unless on a cycle)"""
+    seen = set()
+    st = [s for s in fn.blocks[src].succs if s is not None and s >= 0]
+    while st:
+        b = st.pop()
+        if b in seen:
+            continue
+        seen.add(b)
+        st.extend(s for s in fn.blocks[b].succs if s is not None and s >= 0)
+    return seen
+
+
+def redefined_between(fn, vid, pos_a, pos_b, pos):
+    """may local `vid` be (re)defined on a path from CFG position a to position b?"""
+    for (d, _rhs) in local_defs(fn, vid):
+        pd = enclosing_elem(fn, d, pos)
+        if pd is None:
+            continue
+        if pos_a[0] == pos_b[0] and pos_a[1] <= pos_b[1]:
+            if pd[0] == pos_a[0] and pos_a[1] < pd[1] < pos_b[1]:
+                return True
+            continue
+        if pd[0] == pos_a[0] and pd[1] > pos_a[1]:
+            return True
+        if pd[0] == pos_b[0] and pd[1] < pos_b[1]:
+            return True
+        if pd[0] not in (pos_a[0], pos_b[0]) and pd[0] in block_reach(fn, pos_a[0]) and pos_b[0] in block_reach(fn, pd[0]):
+            return True
+    return False
